@@ -141,10 +141,14 @@ func cmdCheck(args []string) int {
 		fmt.Println("contract error:", msg)
 	}
 	e.ProcessLangDirectives()
+	e.InstantiateTemplates()
 	contracts := e.ContractsFor(cfg.ID)
 	for _, c := range contracts {
 		if c.Inline {
 			continue // verified in the context of each call site
+		}
+		if only := os.Getenv("GOVC_ONLY"); only != "" && !strings.Contains(c.Key(), only) {
+			continue // development aid: one function at a time (never set by the registered commands)
 		}
 		e.VerifyFunc(c)
 	}
